@@ -308,6 +308,93 @@ def state_mesh_layout(ctx, rep, rule: str) -> None:
         rep.ob(rule, f"state-mesh:{ci.name}", view_ok and names_ok and sub_ok and init_ok, fi.loc(views[0]) if views else fi.loc(), f"replicate ranks viewed as (-1, dist_group_size): {view_ok}; dimension names ('replicate', 'shard'): {names_ok}; owner-th sub-mesh along 'replicate': {sub_ok}; same row layout as the communication groups in __init__: {init_ok}", sample=True)
 
 
+def split_semantics(ctx, rep, rule: str, copies) -> None:
+    """_split_local_dist_buffers by concrete interpretation on small cases: given (size, owner) per block in block order and one
+    gather segment per rank, the i-th returned view is cut from the segment OF ITS OWNER (segment number == rank), at the offset
+    of the sizes of the earlier blocks of that owner, with the block's own size — whatever order the owners first appear in."""
+    import itertools
+
+    from ..guards import _MISSING, Interp, Raised, Returned, Unsupported
+
+    repo = ctx.repo
+    seen = set()
+    n_impl = 0
+    for cq in copies:
+        fi = repo.lookup_method(repo.cls(cq), "_split_local_dist_buffers")
+        if fi is None or fi.qual in seen:
+            continue
+        seen.add(fi.qual)
+        n_impl += 1
+        params = [p_ for p_ in fi.params if p_ not in ("self", "cls")]
+
+        class Buf:
+            def __init__(self, rank, n, off=0):
+                self.rank, self.n, self.off = rank, n, off
+
+            def __eq__(self, o):
+                return isinstance(o, Buf) and (self.rank, self.n, self.off) == (o.rank, o.n, o.off)
+
+            def __hash__(self):
+                return hash((self.rank, self.n, self.off))
+
+            def __repr__(self):
+                return f"segment[{self.rank}][{self.off}:{self.off + self.n}]"
+
+        def hook(it, c):
+            f = c.func
+            if isinstance(f, ast.Attribute) and f.attr in ("size", "numel", "nelement") and not c.keywords:
+                b = it.ev(f.value)
+                if isinstance(b, Buf):
+                    return b.n
+            if isinstance(f, ast.Attribute) and f.attr == "split":
+                d = repo.dotted_of(fi.module, f)
+                args = [it.ev(a) for a in c.args]
+                if d == "torch.split":
+                    b, sizes = args[0], args[1]
+                elif isinstance(it.ev(f.value), Buf):
+                    b, sizes = it.ev(f.value), args[0]
+                else:
+                    return _MISSING
+                sizes = list(sizes)
+                if sum(sizes) != b.n or any(x < 0 for x in sizes):
+                    raise Raised("RuntimeError", c)
+                out, off = [], b.off
+                for x in sizes:
+                    out.append(Buf(b.rank, x, off))
+                    off += x
+                return tuple(out)
+            return _MISSING
+
+        body = [s_ for s_ in fi.node.body if not (isinstance(s_, ast.Expr) and isinstance(s_.value, ast.Constant))]
+        bad, n = [], 0
+        for world in (2, 3):
+            for k in range(1, 5):
+                for owners in itertools.product(range(world), repeat=k):
+                    for sizes in ((1,) * k, tuple(range(1, k + 1)), tuple(range(k, 0, -1))):
+                        bsr = tuple(zip(sizes, owners))
+                        per_rank = [sum(s_ for s_, r in bsr if r == q) for q in range(world)]
+                        for slack in (0, 2):
+                            n += 1
+                            bufs = tuple(Buf(q, max(per_rank) + slack) for q in range(world))
+                            want, offs = [], [0] * world
+                            for s_, r in bsr:
+                                want.append(Buf(r, s_, offs[r]))
+                                offs[r] += s_
+                            try:
+                                Interp({params[0]: bsr, params[1]: bufs}, call_hook=hook).run(body, lambda e: ast.unparse(e))
+                                got = None
+                            except Returned as r_:
+                                got = tuple(r_.value) if isinstance(r_.value, (list, tuple)) else r_.value
+                            except Raised as r_:
+                                got = f"raise {r_.exc_name}"
+                            except Unsupported as u:
+                                raise AnalysisError(f"{rule}: {fi.qual} outside the interpreted sub-language: {u}") from u
+                            if got != tuple(want) and len(bad) < 3:
+                                bad.append((bsr, got, tuple(want)))
+        rep.ob(rule, f"split-semantics:{fi.qual.split(':')[-1]}", not bad, fi.loc(), f"{n} cases (2-3 ranks, 1-4 blocks, every owner sequence, three size patterns, with and without slack): view i lies in its owner's segment at the owner's running offset" + (f"; first disagreement at (size, owner)={bad[0][0]}: code gives {bad[0][1]}, required {bad[0][2]}" if bad else ""), sample=True)
+    rep.floor(rule, "implementations of _split_local_dist_buffers", n_impl, 2)
+
+
 def run(ctx, rep) -> None:
     rep.rule("C14.5", "aligned buffer size = smallest multiple of 64 that is >= the block's byte size (complete residue system)")
     rep.attempt("alignment_arithmetic", alignment_arithmetic, ctx, rep, "C14.5", COPIES)
@@ -328,4 +415,5 @@ def run(ctx, rep) -> None:
     rep.attempt("state_mesh_layout", state_mesh_layout, ctx, rep, "C14.2")
     rep.attempt("sibling_pairs", sibling_pairs, ctx, rep, "C14.3", dist_pairs())
     rep.attempt("buffer_views", buffer_views, ctx, rep, "C14.4", COPIES)
+    rep.attempt("split_semantics", split_semantics, ctx, rep, "C14.4", COPIES)
     rep.assume("the 4/3 bound, load-difference bound, 64-byte alignment arithmetic and non-overlap of offsets (integer arithmetic over all size sequences) are NOT decided")
